@@ -131,6 +131,21 @@ CHECKS = {
             "in the sync build), plus an uncoordinated 16-thread stress run; all events must be explained by the memo table of the "
             "sequential run.",
             "DESIGN.md 3/C20", "TLA+ model checking (TLC) of schedules + replay on real threads + trace validation"),
+    "C05": ("spec/Corners.tla + MC_Corners.tla; harness corner-replay under a stall watchdog (release and dev profiles)", "exploration",
+            "Weak fit for the technique, claimed as exploration: the specification contributes the enumeration of the input corners "
+            "(TLC enumerates every small map over the numeric-corner alphabet: times near 2^24/2^30/2^31, coordinates at the parser limit, "
+            "sliders at the bounded-work limit, spinners up to 10 minutes, timing at the clamps; and the editor-realistic alphabet) and "
+            "the acceptance rule (the specification has no Panic and no Timeout action); every public calculation is executed on every "
+            "enumerated map inside catch_unwind, in child processes with a progress watchdog and an address-space limit, in release for the "
+            "adversarial domain and in release plus overflow-checked dev profile for the realistic one.",
+            "DESIGN.md 3/C05", "TLC-enumerated corner inputs + watchdog replay (exploration)"),
+    "C09": ("spec/Corners.tla (degenerate and realistic domains) + MC_Corners.tla; harness corner-replay --c09; ScoreGen.tla for accuracies", "exploration",
+            "Weak fit, claimed as exploration: TLC enumerates degenerate shapes (empty, single objects, all spinners, stacked, zero and huge "
+            "gaps) and realistic corner maps; every f64 of difficulty attributes, strains and performance attributes is projected to "
+            "{Zero, Pos, Neg, NaN, Inf} under mods x clock rates in [0.5, 2] x AR/CS/OD/HP in {0, 11} x score states, and anything but "
+            "Zero/Pos is reported; a state that evaluates to zero hits must be worth zero pp. Accuracies in [0,1] are decided exactly in "
+            "ScoreGen.tla (C12/C13).",
+            "DESIGN.md 3/C09", "TLC-enumerated degenerate inputs + class projection of every float (exploration)"),
 }
 
 NOT_YET = {
